@@ -197,7 +197,7 @@ def _gen_electrum(rng):
     return dict(mnemonic_type=t, entropy=rng.randrange(2 ** (bits - 1), 2 ** bits), lang=lang)
 
 
-@contract("contracts.c_mnemonic.electrum_run", gen=_gen_electrum, props="C13", n_quick=60, n_thorough=1500,
+@contract("contracts.c_mnemonic.electrum_run", gen=_gen_electrum, props="C13", n_quick=40, n_thorough=300,
           rule="four seed versions x eleven languages (CJK included) x entropies worth 11..24 words; one-word substitution")
 class ElectrumBounded:
     """the sentence written for a version is read back as that version, its HMAC('Seed version')
